@@ -49,6 +49,14 @@ def make_ds(rng, xr, fmt):
     nd = int(rng.choice([4, 8, 12, 24, 36, 16, 32, 64, 48]))        # incl. 22.5, 11.25, 5.625 and 7.5 degree bins
     dd = 360.0 / nd
     th = float(rng.choice([0.0, dd / 2, 0.125, dd / 4 if nd != 64 else 0.0])) + dd * np.arange(nd)       # all exact at four decimals
+    many_dirs = fmt.replace("_grid", "") in ("swan", "json", "netcdf") and rng.random() < 0.05
+    if many_dirs:
+        # fine directional grids (2, 1.5 and 1 degree bins): several hundred values per frequency row
+        nd = int(rng.choice([180, 240, 360]))
+        dd = 360.0 / nd
+        th = float(rng.choice([0.0, dd / 2])) + dd * np.arange(nd)
+        nf = 3
+        f = f[:3]
     if fmt == "funwave":
         nd = int(rng.choice([4, 8, 12, 24, 36, 16]))        # Funwave writes directions with three decimals
         dd = 360.0 / nd
@@ -62,7 +70,7 @@ def make_ds(rng, xr, fmt):
         th = np.roll(th, int(rng.integers(1, nd)))
     elif order == "reversed":
         th = th[::-1].copy()
-    nt = int(rng.integers(1, 7))
+    nt = int(rng.integers(1, 7)) if not many_dirs else int(rng.integers(1, 3))
     t0 = np.datetime64("2019-06-01T00:00:00") + np.timedelta64(int(rng.integers(0, 10 ** 6)) * (60 if fmt == "octopus" else 1), "s")
     if rng.random() < 0.3:
         # a time axis that crosses a month or year boundary inside the file
@@ -110,6 +118,11 @@ def make_ds(rng, xr, fmt):
     if grid and rng.random() < 0.4:
         # the same labelled grid held in another dimension order (lon before lat, time not first)
         od = [str(x_) for x_ in rng.permutation(lead)] + ["freq", "dir"]
+        ds = ds.transpose(*od)
+        ds["efth"] = (tuple(od), np.ascontiguousarray(ds["efth"].values))
+    if not grid and rng.random() < 0.3:
+        # station datasets held in any dimension order, the spectral dimensions included (dir before freq, site first)
+        od = [str(x_) for x_ in rng.permutation(["time", "site", "freq", "dir"])]
         ds = ds.transpose(*od)
         ds["efth"] = (tuple(od), np.ascontiguousarray(ds["efth"].values))
     if not grid:
@@ -202,6 +215,9 @@ def one(ctx, rng, xr, ws, fmt, d):
             return funwave_cmp(rec, key0, ds, back)
     except Exception as e:
         mech = "roundtrip-raises:" + base
+        if base == "funwave" and isinstance(e, TypeError) and "format string" in str(e) and "dir" in ds["efth"].dims \
+                and list(ds["efth"].dims).index("dir") < list(ds["efth"].dims).index("freq"):
+            mech = "funwave-writer-assumes-freq-before-dir"      # defect 37 (fixed in repo 13bdf0a)
         if base == "netcdf" and isinstance(e, KeyError) and opts.get("packed"):
             mech = "netcdf-packed-without-compress-keyerror"
         rec.bad("roundtrip_" + base, key0, {"raised": repr(e)[:400], "options": opts, "sizes": dict(ds.sizes)}, mech)
